@@ -46,7 +46,8 @@
 //     the entry ("new T", ["K=" ++ value, …]) (nested literals flattened to
 //     "K.L=…", values of scalar type rendered, "_" otherwise); an assignment to a
 //     field of an abstract object (`resp.Compress = true`) is an effect and is
-//     appended to the trace as `("set resp.Compress", ["true"])`; values read
+//     appended to the trace as `("set resp.Compress", ["true"])` (the
+//     value of a call of scalar type is evaluated first, its opaque calls traced); values read
 //     from abstract objects are re-read (fresh parameters) after any opaque
 //     call or such a write;
 //   - []error literals, append on them and errors.Join are lists of optional
@@ -1608,8 +1609,14 @@ func (c *fctx) assignStmt(x *ast.AssignStmt, rest []ast.Stmt) string {
 		if call, ok := x.Rhs[0].(*ast.CallExpr); ok && !isBuiltin(call) {
 			// evaluate the call first (for the trace), then record the write
 			e := c.expr(call)
-			return c.withEx(e, func(string) string {
-				return c.abstractWrite(x.Lhs[0], op, &ast.Ident{Name: "_"}, func() string { return c.stmts(rest) })
+			return c.withEx(e, func(code string) string {
+				var v ast.Expr = &ast.Ident{Name: "_"}
+				if lt := c.t.leanType(c.typeOf(call)); lt == "Int" || lt == "Bool" {
+					v = &ast.Ident{Name: "«(toString " + code + ")»"} // value of scalar type: rendered
+				} else if lt == "String" {
+					v = &ast.Ident{Name: "«" + code + "»"}
+				}
+				return c.abstractWrite(x.Lhs[0], op, v, func() string { return c.stmts(rest) })
 			})
 		}
 		return c.abstractWrite(x.Lhs[0], op, x.Rhs[0], func() string { return c.stmts(rest) })
@@ -1721,7 +1728,9 @@ func (c *fctx) abstractWrite(lhs ast.Expr, op string, rhs ast.Expr, k func() str
 		fail("assignment to %s, a field of an abstract object (needs trace)", c.show(lhs))
 	}
 	val := c.traceArg(rhs)
-	if val == "\"_\"" {
+	if id, ok := rhs.(*ast.Ident); ok && strings.HasPrefix(id.Name, "«") {
+		val = strings.Trim(id.Name, "«»") // already evaluated by the caller
+	} else if val == "\"_\"" {
 		val = fmt.Sprintf("%q", c.show(rhs))
 	}
 	c.opaqueVals = nil
